@@ -25,6 +25,7 @@ SRC_EXT = {".f90", ".F90", ".f", ".ftn", ".fpp", ".F", ".FOR", ".FTN", ".FPP", "
 REAL_FILES = ["a.c", "b.h", "n.txt", "d/a.c", "d/e/b.c", "x y.c", "[z].c", "q?.c", "d/dir.c/in.c", "d/e/k.F90", "m.cxx.bak", "d/Makefile"]
 # one file per recognised extension, and near misses that are not source files
 REAL_FILES += [f"ext/s{i}{e}" for i, e in enumerate(sorted(SRC_EXT))]
+REAL_FILES += ["ext/d/deep.c"]      # a directory named like the top-level `d`, one level down: `/d/` must not touch it, `d/` must
 REAL_FILES += ["ext/n1.C", "ext/n2.H", "ext/n3.py", "ext/n4.f95", "ext/n5.c.in", "ext/n6.CPP", "ext/n7.for", "ext/n8.hpp~", "ext/c", "ext/.c"]
 LINKS = {"lnk.c": "a.c", "out.c": "../outside/o.c", "old.c": "../root-old/o.c", "dl": "d", "dangling.c": "nowhere.c", "d/up.h": "../b.h",
          "tmpl.h": "ext/n5.c.in",      # a source-like name for a file that is not a source file
@@ -33,7 +34,7 @@ LINKS = {"lnk.c": "a.c", "out.c": "../outside/o.c", "old.c": "../root-old/o.c", 
 POOL = ["a.c", "/a.c", "*.c", "*.h", "d/", "/d/", "d", "e/", "d/e/", "d/e", "**/b.c", "d/**", "**/e/**", "d/*/b.c", "?.c", "q?.c", "q\\?.c",
         "[z].c", "\\[z\\].c", "[ab].c", "x y.c", "x*", "#a.c", "\\#a.c", "", "!a.c", "!d/a.c", "!d/e/b.c", "!*.c", "dir.c", "dir.c/", "*.txt",
         "a.c ", "**", "!d/", "!d/e/", "*", "!*/", "/*.c", "in.c", "*.F90"]
-DIRS = ["d", "d/e", "d/dir.c"]
+DIRS = ["d", "d/e", "d/dir.c", "ext/d"]
 POOL3 = ["*.c", "d/", "!d/e/b.c", "!d/", "d/e", "!*.c", "**/b.c", "a.c", "/d/", "*", "!*/", "!d/e/"]
 
 
